@@ -3,6 +3,7 @@ package c06
 import (
 	"fmt"
 	"sort"
+	"strings"
 	"testing"
 
 	"pgregory.net/rapid"
@@ -24,6 +25,7 @@ type Case struct {
 	Revert  bool      `json:"revert"`
 	Names   []string  `json:"names"`
 	Class   string    `json:"class"`
+	Reroot  int       `json:"reroot,omitempty"` // > 0: the tree is first re-rooted in memory at an inner node
 }
 
 func treeOpts(t *rapid.T, thorough bool) gen.Opts {
@@ -103,6 +105,9 @@ func genCase(t *rapid.T, thorough bool) Case {
 	if len(c.Names) > 1 {
 		c.Names = rapid.Permutation(c.Names).Draw(t, "order")
 	}
+	if rapid.IntRange(0, 2).Draw(t, "rerootfirst") == 0 {
+		c.Reroot = 1 + rapid.IntRange(0, 1000).Draw(t, "rerootat")
+	}
 	return c
 }
 
@@ -110,6 +115,13 @@ func check(c Case) error {
 	t, err := gt.FromModel(c.Tree)
 	if err != nil {
 		return fmt.Errorf("parser rejects the start tree: %v", err)
+	}
+	if c.Reroot > 0 {
+		rm, _, err := gt.RerootBoth(t, c.Tree, c.Reroot-1)
+		if err != nil {
+			return err
+		}
+		c.Tree = rm
 	}
 	if c.Indexed {
 		if err := t.ReinitIndexes(); err != nil {
@@ -233,6 +245,9 @@ func TestC06Prune(t *testing.T) {
 			}
 			keep := func(n string) bool { return given[n] == c.Revert }
 			l := []string{"class:" + c.Class, fmt.Sprintf("revert=%v", c.Revert), fmt.Sprintf("indexed=%v", c.Indexed)}
+			if c.Reroot > 0 && len(c.Tree.Ch) >= 3 && !c.Tree.HasSingleChildInner() {
+				l = append(l, "rerooted-in-memory-first")
+			}
 			if len(c.Tree.Ch) == 2 {
 				l = append(l, "rooted")
 			}
@@ -277,7 +292,34 @@ func TestC06Prune(t *testing.T) {
 
 type CliCase struct {
 	Case
-	Mode string `json:"mode"` // args | file | comp
+	Mode  string      `json:"mode"` // args | file | comp
+	More  []*ref.Node `json:"more,omitempty"` // further trees of the input stream: the first tree plus extra tips
+	First bool        `json:"more_first,omitempty"`
+}
+
+func (c CliCase) stream() []*ref.Node {
+	if c.First {
+		return append(append([]*ref.Node{}, c.More...), c.Tree)
+	}
+	return append([]*ref.Node{c.Tree}, c.More...)
+}
+
+// withExtraTips returns a copy of m with k new tips (names zx1, zx2, ...) hung on drawn branches.
+func withExtraTips(t *rapid.T, m *ref.Node, k int) *ref.Node {
+	c := m.Clone()
+	for j := 1; j <= k; j++ {
+		all := c.All()
+		x := all[rapid.IntRange(1, len(all)-1).Draw(t, "xat")]
+		p := c.Parents()[x]
+		nn := &ref.Node{Ch: []*ref.Node{x, {Name: fmt.Sprintf("zx%d", j), Len: ref.F(0.5)}}}
+		nn.Len, nn.Sup = x.Len, nil
+		for i, ch := range p.Ch {
+			if ch == x {
+				p.Ch[i] = nn
+			}
+		}
+	}
+	return c
 }
 
 func checkCli(c CliCase) error {
@@ -322,18 +364,35 @@ func checkCli(c CliCase) error {
 	if c.Revert {
 		args = append(args, "-r")
 	}
-	r := cli.Run(dir, ref.Write(c.Tree)+"\n", args...)
-	ctx := fmt.Sprintf(" (gotree %v on %s)", args, ref.Write(c.Tree))
+	inComp := func(n string) bool { return !given[n] && n != "zz_absent" && !strings.HasPrefix(n, "zx") }
+	input := ""
+	for _, m := range c.stream() {
+		input += ref.Write(m) + "\n"
+	}
+	r := cli.Run(dir, input, args...)
+	ctx := fmt.Sprintf(" (gotree %v on\n%s)", args, input)
 	if r.Code != 0 || r.TimedOut {
 		return fmt.Errorf("command failed with status %d: %s%s", r.Code, r.Stderr, ctx)
 	}
-	after, err := ref.Parse(trim(r.Stdout))
-	if err != nil {
-		return fmt.Errorf("output not readable: %v%s", err, ctx)
+	lines := strings.Split(trim(r.Stdout), "\n")
+	if len(lines) != len(c.stream()) {
+		return fmt.Errorf("%d trees printed for %d input trees%s", len(lines), len(c.stream()), ctx)
 	}
-	keep := func(n string) bool { return given[n] == c.Revert }
-	if err := compareInduced(c.Case, keep, after); err != nil {
-		return fmt.Errorf("%v%s", err, ctx)
+	for i, m := range c.stream() {
+		after, err := ref.Parse(lines[i])
+		if err != nil {
+			return fmt.Errorf("output not readable: %v%s", err, ctx)
+		}
+		// every tree of the stream is pruned on its own
+		keep := func(n string) bool { return given[n] == c.Revert }
+		if c.Mode == "comp" {
+			keep = func(n string) bool { return !inComp(n) == c.Revert }
+		}
+		cc := c.Case
+		cc.Tree = m
+		if err := compareInduced(cc, keep, after); err != nil {
+			return fmt.Errorf("tree %d of the stream: %v%s", i, err, ctx)
+		}
 	}
 	return nil
 }
@@ -348,12 +407,17 @@ func trim(s string) string {
 func TestC06Cli(t *testing.T) {
 	h.Run(t, h.Spec[CliCase]{
 		Property: "C06", Name: "cli", Quick: 2400, Thorough: 48000,
-		Rule: "the same trees and removal sets through `gotree prune`: tips as arguments, -f tip file, -c compared tree (tips absent from it are removed), each with and without -r; the printed tree is compared with the induced subtree of the reference model; non-trivial = >= 1 tip removed and >= 1 multifurcation or rooted tree",
+		Rule: "the same trees and removal sets through `gotree prune`: tips as arguments, -f tip file, -c compared tree (tips absent from it are removed), each with and without -r; half of the inputs are streams of 2-3 trees with different tip sets, each of which must be pruned on its own; every printed tree is compared with the induced subtree of the reference model; non-trivial = >= 1 tip removed and >= 1 multifurcation or rooted tree",
 		Gen: func(t *rapid.T, thorough bool) CliCase {
 			c := CliCase{Case: genCase(t, false), Mode: rapid.SampledFrom([]string{"args", "file", "comp"}).Draw(t, "mode")}
 			if c.Mode == "args" && len(c.Names) == 0 {
 				c.Mode = "file"
 			}
+			c.Reroot = 0
+			for i, n := 0, rapid.SampledFrom([]int{0, 0, 1, 2}).Draw(t, "nmore"); i < n; i++ {
+				c.More = append(c.More, withExtraTips(t, c.Tree, rapid.IntRange(1, 3).Draw(t, "nextra")))
+			}
+			c.First = rapid.Bool().Draw(t, "morefirst")
 			return c
 		},
 		Check: checkCli,
